@@ -5,7 +5,15 @@ use crate::runner::Sub;
 pub mod c01;
 pub mod c02;
 pub mod c03;
+pub mod c04;
+pub mod c05;
+pub mod c09;
+pub mod c10;
 pub mod c14;
+pub mod c15;
+pub mod c17;
+pub mod c18;
+pub mod c19;
 
 pub struct Meta {
     pub assumptions: Vec<&'static str>,
@@ -34,7 +42,15 @@ pub fn subs(id: &str) -> Vec<Box<dyn Sub>> {
         "C01" => c01::subs(),
         "C02" => c02::subs(),
         "C03" => c03::subs(),
+        "C04" => c04::subs(),
+        "C05" => c05::subs(),
+        "C09" => c09::subs(),
+        "C10" => c10::subs(),
         "C14" => c14::subs(),
+        "C15" => c15::subs(),
+        "C17" => c17::subs(),
+        "C18" => c18::subs(),
+        "C19" => c19::subs(),
         _ => Vec::new(),
     }
 }
